@@ -326,6 +326,8 @@ class BundleFlattener(ElabPass):
         """Recursive inner implementation of `flatten_bundle_inst`."""
 
         bundle_def = bundle_inst.of
+        # From here on modules are built of this definition's members: it takes no further additions.
+        bundle_def._elaborated = True
         scope = BundleScope(src=bundle_inst)
 
         # Copy each scalar signal, retaining its original name as the key in `scope.signals`
